@@ -19,10 +19,10 @@ import (
 	apiv1capella "github.com/attestantio/go-eth2-client/api/v1/capella"
 	"github.com/attestantio/go-eth2-client/spec/capella"
 	"github.com/attestantio/go-eth2-client/spec/phase0"
-	ssz "github.com/ferranbt/fastssz"
 	spectypes "github.com/bloxapp/ssv-spec/types"
 	"github.com/bloxapp/ssv-spec/types/testingutils"
 	"github.com/ethereum/go-ethereum/crypto"
+	ssz "github.com/ferranbt/fastssz"
 	"github.com/herumi/bls-eth-go-binary/bls"
 	"go.uber.org/zap"
 
@@ -230,7 +230,6 @@ func (w *world) op(s sim.Step, how string) (res string) {
 	return "?"
 }
 
-
 // findRecord locates the protection record of share i directly in the inner database (by key
 // suffix = share public key), without assuming the exact prefix layout.
 func (w *world) findRecord(i int, marker string) (key []byte) {
@@ -296,7 +295,7 @@ func run(t *testing.T, d *sim.D) {
 				// the next operation is interrupted at its k-th storage call
 				ops := []string{"add", "remove", "bump", "att", "blk"}
 				inner := &sim.Step{Op: ops[r.Weighted(3, 2, 2, 5, 4)], A: []int64{i, int64(r.Intn(3)), int64(r.Intn(2)), int64(r.Intn(3))}}
-				return &sim.Step{Op: "fault", A: append([]int64{int64(1 + r.Intn(9)), int64(1 + r.Intn(3))}, inner.A...), S: []string{inner.Op}}
+				return &sim.Step{Op: "fault", A: append([]int64{int64(1 + r.Intn(9)), int64(1 + r.Intn(4))}, inner.A...), S: []string{inner.Op}}
 			case 8:
 				return &sim.Step{Op: "break", A: []int64{i, int64(r.Intn(4))}}
 			default:
@@ -320,12 +319,12 @@ func run(t *testing.T, d *sim.D) {
 				d.Logf("restart")
 			case "fault":
 				inner := sim.Step{Op: s.Str(0), A: s.A[2:]}
-				w.fdb.At, w.fdb.Mode = w.fdb.Calls+int(s.Arg(0)), int(s.Arg(1))%4
+				w.fdb.At, w.fdb.Mode = w.fdb.Calls+int(s.Arg(0)), int(s.Arg(1))%5
 				var res string
 				crash := sim.RunToCrash(func() { res = w.op(inner, "under-fault") })
 				fired := w.fdb.Fired != ""
 				w.fdb.At, w.fdb.Fired = 0, ""
-				kind := []string{"none", "crash-before", "crash-after", "storage-error"}[int(s.Arg(1))%4]
+				kind := []string{"none", "crash-before", "crash-after", "storage-error", "reads-keep-failing"}[int(s.Arg(1))%5]
 				if crash != nil {
 					d.Fault(kind)
 					d.Logf("%s in %s at storage call %d (%s) -> restart", kind, inner.Op, s.Arg(0), crash.Op)
@@ -526,7 +525,6 @@ func (w *world) parallel(s sim.Step) {
 	d.Logf("par share %d [%s | %s]", i, res[0], res[1])
 }
 
-
 func goid() string {
 	b := make([]byte, 64)
 	b = b[:runtime.Stack(b, false)]
@@ -564,8 +562,8 @@ func genConfig(r *sim.Rand, tier string) sim.Config {
 
 var Specs = map[string]*sim.Spec{
 	"C04": {Sim: "ekmsim", GenConfig: genConfig, Run: run,
-		Real: []string{"ekm.NewETHKeyManagerSigner: AddShare, RemoveShare, BumpSlashingProtection, SignBeaconObject (attestations, full and blinded blocks)", "ekm signer storage (highest attestation / proposal records, wallet, accounts)", "github.com/bloxapp/eth2-key-manager SimpleSigner + NormalProtection + HD wallet", "storage/kv in-memory Badger in 1 of 6 runs"},
-		Stub: []string{"clock (synctest bubble; advances only by explicit steps)", "database engine sim.MemDB in 5 of 6 runs, always behind the fault-injecting wrapper", "callers (the simulator issues the key-manager calls the event handler and the runners would issue)"},
-		Rule: "seeded histories of {add share, remove share, bump (reactivation), sign attestation(source,target<=clock), sign block(slot<=clock), advance clock, restart on the same database, operation interrupted at its k-th storage call by crash-before / crash-after / storage error then restart, protection record deleted or corrupted, two concurrent signing requests for one share interleaved at every storage call}; oracle over the whole life of each share: no two released attestations with equal target and different root, no surround pair, no two different blocks for one slot, no signature while the record is missing/unreadable. Non-trivial: >=2 signatures released; distinct = hash of (op, per-share (added, #attestations, #blocks, broken)) sequence.",
+		Real:        []string{"ekm.NewETHKeyManagerSigner: AddShare, RemoveShare, BumpSlashingProtection, SignBeaconObject (attestations, full and blinded blocks)", "ekm signer storage (highest attestation / proposal records, wallet, accounts)", "github.com/bloxapp/eth2-key-manager SimpleSigner + NormalProtection + HD wallet", "storage/kv in-memory Badger in 1 of 6 runs"},
+		Stub:        []string{"clock (synctest bubble; advances only by explicit steps)", "database engine sim.MemDB in 5 of 6 runs, always behind the fault-injecting wrapper", "callers (the simulator issues the key-manager calls the event handler and the runners would issue)"},
+		Rule:        "seeded histories of {add share, remove share, bump (reactivation), sign attestation(source,target<=clock), sign block(slot<=clock), advance clock, restart on the same database, operation interrupted at its k-th storage call by crash-before / crash-after / storage error then restart, protection record deleted or corrupted, two concurrent signing requests for one share interleaved at every storage call}; oracle over the whole life of each share: no two released attestations with equal target and different root, no surround pair, no two different blocks for one slot, no signature while the record is missing/unreadable. Non-trivial: >=2 signatures released; distinct = hash of (op, per-share (added, #attestations, #blocks, broken)) sequence.",
 		Assumptions: []string{"attestation targets and block slots are not beyond the clock at signing time (as duties are)", "the clock never goes backwards", "durable state = committed database writes", "a deadlock between concurrent signing requests is a diagnostic only (outside the statement)"}},
 }
